@@ -2,11 +2,11 @@
 (* The ingest loop handle_changes (crates/klukai-agent/src/agent/handlers.rs): bounded queue with         *)
 (* drop-oldest load shedding, the `seen` duplicate-suppression cache, batches handed to                    *)
 (* process_multiple_changes (at most MaxInflight at a time), the periodic tick that flushes the queue and   *)
-(* trims the cache.  Every version of every foreign actor has the sequences 0..1, so the changesets that     *)
-(* can be offered for a version are: the complete one (0..1), the two partial chunks, and "empty".           *)
+(* trims the cache.  Every version of every foreign actor has the sequences 0..MaxSeq; the changesets that   *)
+(* can be offered for a version are any contiguous chunk lo..hi of it (complete when 0..MaxSeq) and "empty".  *)
 EXTENDS Naturals, FiniteSets, Sequences, TLC
 
-CONSTANTS Actors, Vs, QLen, Chunk, MaxInflight, SeenMax, Keep,
+CONSTANTS Actors, Vs, MaxSeq, QLen, Chunk, MaxInflight, SeenMax, Keep,
           FixS3,        \* FALSE: drop-oldest evicts the cache entry keyed by the INCOMING changeset's actor (code as found)
           FixEmptySeen  \* FALSE: an empty changeset is suppressed whenever any chunk of its version is cached (code as found)
 
@@ -15,17 +15,18 @@ VARIABLES queue,     \* Seq of changesets
           seen,      \* Seq of [a, v, seqs]: the IndexMap in insertion order
           inflight,  \* Seq of batches (Seq of changesets) handed to process_multiple_changes, not yet joined
           known,     \* [Actors -> SUBSET Vs]: versions applied or recorded as cleared (bookkeeping)
-          part       \* [Actors \X Vs -> SUBSET {0, 1}]: buffered sequences of partially received versions
+          part       \* [Actors \X Vs -> SUBSET (0..MaxSeq)]: buffered sequences of partially received versions
 vars == <<queue, bufCost, seen, inflight, known, part>>
 
-Fulls == [k : {"full"}, a : Actors, v : Vs, lo : {0, 1}, hi : {0, 1}]
+AllSeqs == 0..MaxSeq
+Fulls == [k : {"full"}, a : Actors, v : Vs, lo : AllSeqs, hi : AllSeqs]
 Changes == {c \in Fulls : c.lo <= c.hi} \cup [k : {"empty"}, a : Actors, v : Vs]
 CSeqs(c) == IF c.k = "empty" THEN {} ELSE c.lo..c.hi
 Cost(c) == IF c.k = "empty" THEN 1 ELSE Cardinality(CSeqs(c))
-Complete(c) == c.k = "full" /\ c.lo = 0 /\ c.hi = 1
+Complete(c) == c.k = "full" /\ c.lo = 0 /\ c.hi = MaxSeq
 
 (* bookkeeping view *)
-VersionKnown(a, v) == v \in known[a] \/ part[<<a, v>>] = {0, 1}
+VersionKnown(a, v) == v \in known[a] \/ part[<<a, v>>] = AllSeqs
 Held(c) == IF c.k = "empty" THEN VersionKnown(c.a, c.v)
            ELSE (c.v \in known[c.a] /\ part[<<c.a, c.v>>] = {}) \/ (part[<<c.a, c.v>>] # {} /\ CSeqs(c) \subseteq part[<<c.a, c.v>>])
 
@@ -97,7 +98,7 @@ Tick ==
 (* the code; the whole batch here - the bookkeeping of different actors is independent)                  *)
 ApplyChange(st, c) ==
     IF c.k = "empty" THEN
-        IF c.v \in st.known[c.a] \/ st.part[<<c.a, c.v>>] = {0, 1} THEN st
+        IF c.v \in st.known[c.a] \/ st.part[<<c.a, c.v>>] = AllSeqs THEN st
         ELSE [known |-> [st.known EXCEPT ![c.a] = @ \cup {c.v}], part |-> [st.part EXCEPT ![<<c.a, c.v>>] = {}]]
     ELSE IF (c.v \in st.known[c.a] /\ st.part[<<c.a, c.v>>] = {}) \/ (st.part[<<c.a, c.v>>] # {} /\ CSeqs(c) \subseteq st.part[<<c.a, c.v>>]) THEN st
     ELSE IF Complete(c) THEN [known |-> [st.known EXCEPT ![c.a] = @ \cup {c.v}], part |-> [st.part EXCEPT ![<<c.a, c.v>>] = {}]]
@@ -133,7 +134,7 @@ C10_CacheSoundSeqs == \A i \in 1..Len(seen) : \A s \in seen[i].seqs : SeqCovered
 C10_CacheSoundEmpty == \A c \in Changes : (c.k = "empty" /\ Suppressed(c)) =>
     \/ VersionKnown(c.a, c.v)
     \/ \E p \in Pending : p.a = c.a /\ p.v = c.v /\ (p.k = "empty" \/ Complete(p))
-    \/ (part[<<c.a, c.v>>] \cup UNION {CSeqs(p) : p \in {q \in Pending : q.a = c.a /\ q.v = c.v}}) = {0, 1}
+    \/ (part[<<c.a, c.v>>] \cup UNION {CSeqs(p) : p \in {q \in Pending : q.a = c.a /\ q.v = c.v}}) = AllSeqs
 (* the node never claims to hold what it dropped: bookkeeping only grows through Commit *)
 C10_CostOk == bufCost = SumCost(queue)
 C10_QueueBound == Len(queue) <= QLen
